@@ -2,6 +2,8 @@ import Lean.Data.Json
 import GristModel
 import Driver.Treeview
 import Driver.Engine
+import Driver.JsonImport
+import Driver.Predicate
 import Driver.SortedFind
 import Driver.Schedule
 import Driver.Identifiers
@@ -16,6 +18,7 @@ def handleStateless (m : String) (j : Json) : Except String Json :=
   | "identifiers" => handleIdentifiers j
   | "schedule" => handleSchedule j
   | "sortedfind" => handleSortedFind j
+  | "predicate" => Grist.Driver.Pred.handlePredicate j
   | _ => throw s!"unknown model {m}"
 
 structure AllState where
